@@ -71,7 +71,11 @@ func main() {
 		if len(os.Args) > 2 {
 			reps, _ = strconv.Atoi(os.Args[2])
 		}
-		props.RaceWorkload(reps)
+		if len(os.Args) > 3 && os.Args[3] == "readers" {
+			props.RaceReaders(reps)
+		} else {
+			props.RaceWorkload(reps)
+		}
 	case "child":
 		if len(os.Args) < 7 {
 			usage()
